@@ -73,6 +73,7 @@ def hypergraph_structure(U, edges=None, absent=99, batches=True):
             ("remove_edges", (((b, a), None), ((b, c), None))),
             ("remove_edges", (((a, b), None), ((a, absent), None))),  # second absent -> rejected, nothing removed
             ("remove_edges", (((a, b), None), ((a, b), None))),  # repeated -> second absent
+            ("remove_edges", (((c, b), None), ((a, b), None), ((b, a), None))),  # same hyperedge in two listings -> rejected, nothing removed
             ("remove_nodes", (a, b), False),
             ("remove_nodes", (c, a), True),
             ("remove_nodes", (a, absent), False),  # second absent -> rejected, nothing removed
